@@ -183,10 +183,7 @@ Theorem scalar_codec_canonical : forall r : N, (r <= 2 ^ 256)%N ->
   (forall bs x, bytes_ok bs -> scalar_decode r bs = Some x ->
                 bs = scalar_encode x /\ (x < r)%N /\ length bs = 32%nat) /\
   (forall bs, (r <= be_val bs)%N -> scalar_decode r bs = None).
-Proof.
-  intros r Hr. split; [intros; apply scalar_codec_rt; assumption|].
-  split; [exact (scalar_codec_canon r)|exact (scalar_codec_rejects r)].
-Qed.
+Proof. exact scalar_codec_canonical_lemma. Qed.
 Print Assumptions scalar_codec_canonical.
 
 (** the little-endian codec of ristretto scalars *)
@@ -194,9 +191,7 @@ Theorem scalar_codec_le_canonical : forall r : N, (r <= 2 ^ 256)%N ->
   (forall x, (x < r)%N -> scalar_decode_le r (scalar_encode_le x) = Some x) /\
   (forall bs x, bytes_ok bs -> scalar_decode_le r bs = Some x ->
                 bs = scalar_encode_le x /\ (x < r)%N /\ length bs = 32%nat).
-Proof.
-  intros r Hr. split; [intros; apply scalar_codec_le_rt; assumption|exact (scalar_codec_le_canon r)].
-Qed.
+Proof. exact scalar_codec_le_canonical_lemma. Qed.
 Print Assumptions scalar_codec_le_canonical.
 
 (** [scalar_from_bytes] takes exactly CAPACITY bits (254 for BLS12-381, 252 for ristretto) of the
@@ -205,7 +200,7 @@ Print Assumptions scalar_codec_le_canonical.
 Theorem scalar_from_bytes_capacity : forall bs, bytes_ok bs ->
   bls_scalar_from_bytes bs = Some (le_val (firstn 32 bs) mod 2 ^ 254)%N /\
   ed_scalar_from_bytes bs = Some (le_val (firstn 32 bs) mod 2 ^ 252)%N.
-Proof. intros bs H. split; [apply bls_scalar_from_bytes_capacity|apply ed_scalar_from_bytes_capacity]; assumption. Qed.
+Proof. exact scalar_from_bytes_capacity_lemma. Qed.
 Print Assumptions scalar_from_bytes_capacity.
 
 (** ** keygen_bls *)
@@ -218,7 +213,7 @@ Theorem keygen_bls_is_os2ip_mod_r :
      forall fuel start sk, keygen_loop fuel okms start = Some sk ->
        sk <> 0%N /\ exists i, (start <= i)%nat /\ sk = (be_val (okms i) mod bls_r)%N /\
                               forall j, (start <= j < i)%nat -> (be_val (okms j) mod bls_r = 0)%N).
-Proof. split; [exact keygen_round_os2ip|exact keygen_loop_spec]. Qed.
+Proof. exact keygen_bls_lemma. Qed.
 Print Assumptions keygen_bls_is_os2ip_mod_r.
 
 (** ** Derivation paths *)
